@@ -27,7 +27,7 @@ MODULES = ["BMV.Props.C17"]
 EXE = "oracle-c17"
 GEN = os.path.join(vlib.LEAN, "BMV", "Gen", "GoStmts.lean")
 KINDS = ["proc", "disp", "emu", "req", "pool"]
-SIM_MODES = ("seq", "seqerr", "par", "fit", "raw", "seqdyn", "pardyn", "fiterr", "spserr", "seqdly", "pardly")
+SIM_MODES = ("seq", "seqerr", "par", "fit", "raw", "seqdyn", "pardyn", "fiterr", "spserr", "seqdly", "pardly", "heapdly", "heapseq")
 REGS = ("types", "matchers", "opcodes")   # process-wide registries: bmnumbers.AllTypes/AllMatchers, procbuilder.Allopcodes
 POOL_DRIVER = os.path.join(vlib.HARNESS, "cmd", "c17", "simfinetune_driver_test.go.txt")
 CALIBRATION = ("reqhold", "reqrelease")   # the harness itself keeps servers open, then closes them
@@ -80,7 +80,7 @@ def parse(impl_text, model_text):
 def spec_of(b):
     d = b["b"]
     if d["mode"] == "pool":
-        return "pool,%s:%s:%s:%s:%s:%s" % (d["W"], d["n"], d["P"], d["R"], d.get("X", "0"), d.get("D", "0"))
+        return "pool,%s:%s:%s:%s:%s:%s:%s" % (d["W"], d["n"], d["P"], d["R"], d.get("X", "0"), d.get("D", "0"), d.get("S", "0"))
     mach = d.get("mach", "-")
     if d["mode"] not in SIM_MODES:
         mach = "-"
@@ -92,6 +92,11 @@ def growth(b):
     o = b["obs"]
     g = {k: int(o[k]) for k in KINDS}
     g["other"] = int(o["other"])
+    if "heapgrow" in o:
+        # retained simulator state: live heap (after GC) grown over the n measured simulations by more than
+        # max(512 KiB, 100 bytes per simulation); the unchanged tree stays around 30-60 KiB for n = 6000
+        hgrow, n_ = int(o["heapgrow"]), int(b["b"]["n"])
+        g["heap:retained-bytes"] = hgrow if hgrow > max(512 * 1024, 100 * n_) else 0
     if b["b"]["mode"] in SIM_MODES:   # (an assembly may legitimately register new dynamic opcodes)
         for r in REGS:   # retained simulator state: entries added to the process-wide registries
             if r in o:
@@ -110,8 +115,10 @@ def judge(cfg, b, listed):
         return ("calibration" if tie_ok else "tie"), ""
     leaked = {k: v for k, v in g.items() if v > 0}
     if leaked:
-        what = "%s n=%s P=%s%s leaves %s goroutines / registry entries behind (%s)" % (
-            mode, n, P, (" Workers=%s" % d["W"]) if mode == "pool" else "", sum(leaked.values()),
+        nthings = sum(v for k_, v in leaked.items() if not k_.startswith("heap:"))
+        what = "%s n=%s P=%s%s leaves %s behind (%s)" % (
+            mode, n, P, (" Workers=%s" % d["W"]) if mode == "pool" else "",
+            ("%d goroutines / registry entries" % nthings) if nthings else "retained heap",
             ", ".join("%s:+%d" % kv for kv in sorted(leaked.items())))
         if (mode in SIM_MODES and set(leaked) <= {"proc", "disp"} and g["proc"] == n * P and g["disp"] == n
                 and cfg.get("proc") == "0" and cfg.get("disp") == "0" and KF_SIM in listed):
@@ -191,6 +198,9 @@ def pool_spec(seed, thorough):
     # FitnessEnv.Debug (simfinetune -d): the progress output must not leave anything behind either
     for W in (1, 4, 0):
         out.append("%d:%d:%d:%d:0:1" % (W, 5, r.randint(1, 2), r.randint(1, 3)))
+    # a candidate whose delay table makes the (single) record simulate for about 7 s of wall clock: whatever
+    # the evaluation does with such a record, nothing may be left once the simulation has finished
+    out.append("1:1:1:1:0:0:7")
     return ",".join(out)
 
 
@@ -222,9 +232,11 @@ def shrink(hbin, b, cfg, listed):
     d = b["b"]
     mode = d["mode"]
     cands = []
+    if mode.startswith("heap"):
+        return b, spec_of(b), judge(cfg, b, listed)[1]   # growth per simulation: the batch size is the input
     if mode == "pool":
         try:
-            impl, model = run_pool(build_pool_driver(), "%s:1:1:%s:%s:%s" % (d["W"], min(1, int(d["R"])), d.get("X", "0"), d.get("D", "0")))
+            impl, model = run_pool(build_pool_driver(), "%s:1:1:%s:%s:%s:%s" % (d["W"], min(1, int(d["R"])), d.get("X", "0"), d.get("D", "0"), d.get("S", "0")))
             _, bs, _ = parse(impl, model)
             if bs and bs[0]["obs"] is not None and judge(cfg, bs[0], listed)[0] == "leak":
                 return bs[0], spec_of(bs[0]), judge(cfg, bs[0], listed)[1]
@@ -375,8 +387,8 @@ def run(rep):
         leaks.sort(key=lambda x: (x[0]["b"]["mode"] not in SIM_MODES + ("pool",), int(x[0]["b"]["n"]), int(x[0]["b"]["P"])))
         b, spec, what = shrink(hbin, leaks[0][0], cfg, listed)
         g_ = growth(b)
-        only_reg = not any(v > 0 for k, v in g_.items() if not k.startswith("registry:"))
-        rep.violation({"property": PROP, "kind": "registry-entries-left-behind" if only_reg else "goroutines-left-behind",
+        only_reg = not any(v > 0 for k, v in g_.items() if not k.startswith(("registry:", "heap:")))
+        rep.violation({"property": PROP, "kind": "retained-state-left-behind" if only_reg else "goroutines-left-behind",
                        "what": what, "replay_spec": spec, "batch": b["line"],
                        "observed": growth(b), "model": b["model"], "tree_configuration": cfg,
                        "all_leaking_batches": [w for _, w in leaks][:12],
@@ -412,7 +424,7 @@ def replay(rep, path):
     listed = {f.get("id") for f in vlib.load_known_findings(PROP)}
     pbin = build_pool_driver() if spec.startswith("pool,") else None
     # a leak that depends on the order in which the workers report may need a few attempts
-    attempts = 8 if obj.get("kind") in ("goroutines-left-behind", "registry-entries-left-behind") else 1
+    attempts = 8 if obj.get("kind") in ("goroutines-left-behind", "registry-entries-left-behind", "retained-state-left-behind") else 1
     for _ in range(attempts):
         if pbin:
             impl, model = run_pool(pbin, spec[5:], 900)
